@@ -20,6 +20,9 @@ void b_roundtrip(void)
 {
   uint8_t in_x[RT_N], in_mask[RT_N]; size_t in_len; bool in_has_mask; uint64_t in_flags;
   __CPROVER_assume(in_len <= RT_N && (in_has_mask == 0 || in_has_mask == 1) && in_flags <= 1);
+#ifdef RT_FLAGS
+  __CPROVER_assume(in_flags == RT_FLAGS);            /* case split over the two flag settings (one group each) */
+#endif
   char tbuf[TEXT_MAX + 1], dbuf[TEXT_MAX], mbuf[TEXT_MAX];
   vstr T = { tbuf, 0, TEXT_MAX }, D = { dbuf, 0, TEXT_MAX }, M = { mbuf, 0, TEXT_MAX };
   verif_exc = 0; g_load_calls = 0;
